@@ -385,8 +385,24 @@ def check_c06(tier: str) -> int:
                             break
                     else:
                         replay_prefix = None
+                    aftermath = None
+                    if ck.evaluations % 5 == 1:
+                        # the first attempt to re-establish the connection fails (refusal, no route, time-out, unreachable
+                        # network, name resolution, abort: the classes cycle); the next one is accepted
+                        rig.net.refuse_next = 1
+                        aftermath = "first reconnection attempt fails"
+                        dist["reject_then_failed_first_redial"] += 1
                     rig.feed([bad])
                     ds, msgs, reset, unh = rig.take()
+                    if reset and ck.evaluations % 7 == 3 and not rig.sock.is_connected:
+                        # the application closes and re-opens the client while the reconnection is still in flight
+                        t_ = rig.loop.create_task(rig.sock.close())
+                        rig.loop.settle()
+                        t2_ = rig.loop.create_task(rig.sock.open_socket())
+                        rig.loop.settle()
+                        rig.net.take_events()
+                        aftermath = (aftermath + "; " if aftermath else "") + "close() and open_socket() while the reconnection is in flight"
+                        dist["reject_then_close_open_during_redial"] += 1
                     m_ds, m_alive, m_buf = rxrig.parse_model_stream(mr)
                     det = is_detectable(n, em, eh, el) and not touches_len
                     dist["detectable" if det else "outside_guarantee"] += 1
@@ -432,8 +448,13 @@ def check_c06(tier: str) -> int:
                             cur.transport.peer_reset()
                         rig.take()
                     # later intact frames are delivered
-                    if ck.evaluations % 97 == 0:
-                        if rig.connect():
+                    if ck.evaluations % 97 == 0 or aftermath:
+                        replay["after_the_rejection"] = aftermath
+                        if not rig.connect():
+                            replay["trigger"] = {"what": "no-reconnect"}
+                            ck.violation("the connection was not re-established after a rejected frame", replay)
+                            break
+                        else:
                             rig.feed([good_probe])
                             ds2, _, _, _ = rig.take()
                             dist["probe_after_reject"] += 1
